@@ -101,5 +101,3 @@ func cmdRun(args []string) {
 	}
 }
 
-func cmdCheck(args []string)  { fmt.Println("TODO") }
-func cmdReplay(args []string) { fmt.Println("TODO") }
